@@ -61,9 +61,14 @@ func c18CheckTerm(tm *term, objs []metav1.Object) string {
 	return ""
 }
 
-func TestC18_Random(t *testing.T) {
+func TestC18_Random(t *testing.T) { rapid.Check(t, c18RandomProp) }
+
+// FuzzC18: the same property under Go's coverage-guided fuzzer (thorough tier).
+func FuzzC18(f *testing.F) { f.Fuzz(rapid.MakeFuzz(c18RandomProp)) }
+
+func c18RandomProp(t *rapid.T) {
 	cfg := termCfg{fn: true}
-	rapid.Check(t, func(t *rapid.T) {
+	{
 		tm := genTerm(cfg, 3).Draw(t, "term")
 		// a generated slice of the universe keeps one case cheap; the
 		// enumerative runs cover the full universe
@@ -79,7 +84,7 @@ func TestC18_Random(t *testing.T) {
 		statCase("C18", hashString(s), c18Nontrivial(tm), func() interface{} {
 			return map[string]interface{}{"term": s, "objects": len(objs), "first_object": describeObj(objs[0])}
 		}, fmt.Sprintf("depth%d", tm.depth()))
-	})
+	}
 }
 
 // c18Atoms: the atom set for the enumerative runs (filter package only).
